@@ -23,8 +23,8 @@ numbers and **all streams of random values**:
 
 Not proved (decided per input by the check, by exhaustive exploration of the random choices):
 termination for every input (`Explored.stuck`, `Explored.mayRaise`), that the canonical
-vertices generate the closure of the input (C02), that 2n+1 strings generating su(2^n) are
-necessarily distinct (a theorem about su(2^n), not about the code).
+vertices generate the closure of the input (C02).  That 2n+1 strings generating su(2^n), n ≥ 2,
+are necessarily distinct is proved in `Properties/C20Min.lean` (`C20_distinct`, `C20_run_distinct`).
 -/
 import PauLieVerif.Proofs.C20Lemmas
 
